@@ -321,9 +321,13 @@ def check_litfmt(R, drv, tier):
             R.engine_error(f"K-litfmt: replay program for {txt!r} does not format: {str(r)[:200]}")
 
     try:
-        LQ = 4 if tier == "quick" else 6
+        LQ = 4 if tier == "quick" else 5
         runs = [(n, "any") for n in range(L + 1)] + [(n, "quotes") for n in range(L + 1, LQ + 1)]
+        budget = float(__import__("os").environ.get("VERIF_KERNEL_BUDGET_S", "0") or 0) or (2700.0 if tier == "thorough" else 1200.0)
         for n, alphabet in runs:
+            if time.time() - t0 > budget:
+                R.cov.setdefault("bounds", {})["K-litfmt-stopped"] = f"time budget of {budget:.0f} s reached before the run (n = {n}, alphabet {alphabet}); not explored in this run"
+                continue
             text = [z3.BitVec(f"lit{n}_c{i}", 32) for i in range(n)]
             if alphabet == "any":
                 dom = [strlex.scalar(c) for c in text]
